@@ -93,9 +93,12 @@ let impl_codec (impl : string) : codec option =
 let global_spec = "70=71,71=71,51=51,129=129,200=200,55=55"
 
 let parse_reg (s : string) : (string * string) list * (string * string) list =
+  (* "R:", "Rd:", "Rl:" — the order in which the harness populates the zero-value Registry is
+     immaterial to the model *)
   let body = if s = "G" then global_spec
-    else if String.length s >= 2 && String.sub s 0 2 = "R:" then String.sub s 2 (String.length s - 2)
-    else failwith ("bad registry " ^ s) in
+    else (match String.index_opt s ':' with
+        | Some i when i >= 1 && i <= 2 && s.[0] = 'R' -> String.sub s (i + 1) (String.length s - i - 1)
+        | _ -> failwith ("bad registry " ^ s)) in
   let encs = ref [] and decs = ref [] in
   if body <> "" then
     List.iter (fun ent ->
@@ -151,7 +154,7 @@ let form_of = function "l" -> FLoad | "r" -> FLoadRaw | "p" -> FLoadPlusRaw | _ 
 (* ------------------------------------------------------------------ printing *)
 
 let eclass_name = function
-  | ESetup -> "setup" | EOpen -> "open" | EIo -> "io" | EHashMismatch -> "hash_mismatch"
+  | ESetup -> "setup" | EOpen -> "open" | EIo -> "io" | EShortWrite -> "shortwrite" | EHashMismatch -> "hash_mismatch"
   | EDecode -> "decode" | EEncode -> "encode" | ECommit -> "commit" | EReify -> "reify"
 
 let status_name = function SOk -> "ok" | SErr e -> "err." ^ eclass_name e | SPanic -> "panic"
@@ -214,10 +217,16 @@ let first_failure (cap : int) (sched : wact list) (chunks : bytes list) : bool =
 type pop = PS of bool * wact list option * string * lproto * dm | PG of string * bytes
 
 let nested_marks : (int, unit) Hashtbl.t = Hashtbl.create 8   (* positions of nested (N) ops *)
+let must_marks : (int, unit) Hashtbl.t = Hashtbl.create 8     (* positions of Must* ops *)
+let pre_marks : (int, unit) Hashtbl.t = Hashtbl.create 8      (* positions of P ops (through the global-registry system) *)
+
+let has_prefix (p : string) (t : string) = String.length t >= String.length p && String.sub t 0 (String.length p) = p
 
 let rec parse_op (s : string) : pop =
   match split ':' s with
   | "N" :: _sys :: rest -> parse_op (String.concat ":" rest)
+  | "P" :: rest -> parse_op (String.concat ":" rest)
+  | ("MC" | "MS" | "MG" as m) :: rest -> parse_op (String.concat ":" (String.sub m 1 1 :: rest))
   | ["S"; p; _h; v] -> PS (true, None, p, parse_proto p, dm_of_string v)
   | ["W"; p; _h; sc; v] -> PS (true, Some (parse_sched sc), p, parse_proto p, dm_of_string v)
   | ["C"; p; _h; v] -> PS (false, None, p, parse_proto p, dm_of_string v)
@@ -259,7 +268,7 @@ let typed_view (h : string) (v : dm) : dm =
 let load_holder (t : string) : string =
   let t = (if String.length t > 2 && String.sub t 0 2 = "N:" then
              (match split ':' t with _ :: _ :: rest -> String.concat ":" rest | _ -> t) else t) in
-  match split ':' t with ["G"; _; _; h] -> h | _ -> ""
+  match split ':' t with [("G" | "MG"); _; _; h] -> h | _ -> ""
 
 let do_hist id kind trusted reg_text ops_text obs =
   let (encs, decs) = parse_reg reg_text in
@@ -268,8 +277,11 @@ let do_hist id kind trusted reg_text ops_text obs =
   (* a nested operation (performed inside the storage opener of the next op) is, for the model, the
      same operation performed just before it: hashers are fresh per call and a ComputeLink / load
      changes no state, so nesting is invisible — the tie obligation this run discharges *)
-  Hashtbl.reset nested_marks;
-  List.iteri (fun i t -> if String.length t > 2 && String.sub t 0 2 = "N:" then Hashtbl.replace nested_marks i ()) op_texts;
+  Hashtbl.reset nested_marks; Hashtbl.reset must_marks; Hashtbl.reset pre_marks;
+  List.iteri (fun i t ->
+      if has_prefix "N:" t then Hashtbl.replace nested_marks i ();
+      if has_prefix "P:" t then Hashtbl.replace pre_marks i ();
+      if has_prefix "MC:" t || has_prefix "MS:" t || has_prefix "MG:" t then Hashtbl.replace must_marks i ()) op_texts;
   let pops = List.map parse_op op_texts in
   let sk = if kind = "cid" then cidmem_kind else memstore_kind in
   let bad = ref false in
@@ -282,7 +294,14 @@ let do_hist id kind trusted reg_text ops_text obs =
         (match parse_link lb with
          | Some l -> OLoad (form_of f, l)
          | None -> bad := true; OLoad (form_of f, { l_v0 = false; l_codec = N0; l_mhtype = N0; l_digest = [] }))) pops in
-  let (outs0, _) = run hasher_ok hash encoders decoders !store_latch sk trusted [] ops in
+  (* P ops (a prefix of the history) go through a DefaultLinkSystem on the same storage *)
+  let npre = Hashtbl.length pre_marks in
+  let rec take_n k l = if k <= 0 then [] else match l with [] -> [] | x :: r -> x :: take_n (k - 1) r in
+  let (pre_outs, st_pre) = run hasher_ok hash g_encoders g_decoders !store_latch sk trusted [] (take_n npre ops) in
+  let run_rest ops' =
+    let (o, st) = run hasher_ok hash encoders decoders !store_latch sk trusted st_pre (drop npre ops') in
+    (pre_outs @ o, st) in
+  let (outs0, _) = run_rest ops in
   let setup_failed i = (match List.nth_opt outs0 i with
       | Some (OutS s) -> s.so_status = SErr ESetup
       | Some (OutL o) -> o.lo_status = SErr ESetup
@@ -292,13 +311,14 @@ let do_hist id kind trusted reg_text ops_text obs =
   let notrun = Hashtbl.fold (fun i () acc -> if setup_failed (i + 1) then i :: acc else acc) nested_marks [] in
   missing := false;
   let ops_run = List.filteri (fun i _ -> not (List.mem i notrun)) ops in
-  let (outs, st) = run hasher_ok hash encoders decoders !store_latch sk trusted [] ops_run in
+  let (outs, st) = run_rest ops_run in
   let rec splice i outs =
     if i >= List.length ops then [] else
     if List.mem i notrun then "notrun" :: splice (i + 1) outs
     else (match outs with
-        | OutS s :: r -> sout_text s :: splice (i + 1) r
+        | OutS s :: r -> sout_text (if Hashtbl.mem must_marks i then must_s s else s) :: splice (i + 1) r
         | OutL o :: r ->
+          let o = if Hashtbl.mem must_marks i then must_l o else o in
           let h = load_holder (List.nth op_texts i) in
           let o = (if h = "" then o else { o with lo_node = (match o.lo_node with Some v -> Some (typed_view h v) | None -> None) }) in
           lout_text o :: splice (i + 1) r
@@ -314,6 +334,8 @@ let do_hist id kind trusted reg_text ops_text obs =
   let skip = ref (!bad) in
   List.iter (function PS (_, _, ptext, _, _) -> if not (proto_in_space ptext) then skip := true | _ -> ()) pops;
   Array.iter (fun o -> if o = "builderr/-" || o = "badlink/-/-" then skip := true) iobs;
+  (* building a link system over a freshly populated zero-value Registry must not panic *)
+  if Array.exists (fun o -> o = "regpanic/-") iobs then add_fail fails "registry_setup_panic";
   if !skip then ()
   else if Array.length iobs <> nops + 2 then add_fail fails "malformed_obs"
   else begin
@@ -337,20 +359,41 @@ let do_hist id kind trusted reg_text ops_text obs =
           if o = "builderr/-" then skip := true
           else if not (proto_in_space ptext) then skip := true
           else if write_fails then begin
-            if (match split '/' o with st :: _ -> st = "ok" | [] -> true)
-            then add_fail fails "store_ok_after_write_error"
+            let st_ = (match split '/' o with st :: _ -> st | [] -> "ok") in
+            if st_ = "ok" then add_fail fails "store_ok_after_write_error"
+            else begin
+              (* the writer's own error for a failed Write, io.ErrShortWrite for a short count *)
+              let want = (match wsched, encoders lp.lp_codec with
+                  | Some sc, Some c ->
+                    (match c.c_enc v with
+                     | Some chunks ->
+                       "err." ^ eclass_name (wfail_class { w_open_err = false; w_cap = None; w_sched = sc; w_commit_err = false } chunks)
+                     | None -> st_)
+                  | _ -> st_) in
+              if st_ <> want then add_fail fails "storage_write_error_replaced"
+            end
           end
           else begin
-            (* the implementation this registry binds the prototype's code to, for encoding *)
-            let ch = (match List.assoc_opt (proto_codec_hex ptext) encs with Some i -> i | None -> "none") in
-            if ch = "none" && (match split '/' o with st :: _ -> st <> "err.setup" | [] -> true)
+            (* the implementation this registry (for a P op: the global one) binds the prototype's code to, for encoding *)
+            let enc_tbl = if Hashtbl.mem pre_marks i then global_encs else encs in
+            let ch = (match List.assoc_opt (proto_codec_hex ptext) enc_tbl with Some i -> i | None -> "none") in
+            if ch = "none" && (match split '/' o with
+                | st :: _ -> st <> (if Hashtbl.mem must_marks i then "panic" else "err.setup") | [] -> true)
             then add_fail fails "store_without_encoder";
             let cv = string_of_dm (canon ch v) in
             let key = ptext ^ "|" ^ cv in
-            (* store = compute = the same for every re-creation of the value, whatever came before *)
+            (* store = compute = the same for every re-creation of the value, whatever came before;
+               a Must* call returns what the plain call returns and panics exactly when that errs *)
+            let is_must = Hashtbl.mem must_marks i in
             (match Hashtbl.find_opt by_input key with
-             | Some prev -> if prev <> o then add_fail fails "link_fn"
-             | None -> Hashtbl.replace by_input key o);
+             | Some prev ->
+               if is_must then begin
+                 let prev_ok = has_prefix "ok/" prev in
+                 if prev_ok && o <> prev then add_fail fails "must_differs_on_success";
+                 if (not prev_ok) && o <> "panic/-" then add_fail fails "must_no_panic_on_error"
+               end
+               else if prev <> o then add_fail fails "link_fn"
+             | None -> if not is_must then Hashtbl.replace by_input key o);
             (match split '/' o with
              | ["ok"; lh] ->
                (match parse_link (bytes_of_hex lh) with
@@ -390,8 +433,10 @@ let do_hist id kind trusted reg_text ops_text obs =
                       through the decoder THIS registry binds the link's code to *)
                    let di = List.assoc_opt (hex_of_n (link_proto l).lp_codec) decs in
                    let want_node = (f <> "r") and want_raw = (f = "r" || f = "p") in
+                   let is_must = Hashtbl.mem must_marks i in
                    if want_node && di = None then begin
-                     if st <> "err.setup" || node <> "-" || raw <> "-" then add_fail fails "load_without_decoder"
+                     if st <> (if is_must then "panic" else "err.setup") || node <> "-" || raw <> "-"
+                     then add_fail fails "load_without_decoder"
                    end
                    else if want_node && di <> Some ch then begin
                      (* bound to different implementations for the two directions: only the bytes are specified *)
@@ -651,6 +696,12 @@ let do_store proto_text value wopen cap sched_text commiterr obs =
              if st_ = "ok" || cm <> "commit=0" then
                add_fail fails (if ch = "129" || ch = "200" then "json_commit_after_write_error"
                                else "commit_after_write_error")
+             else begin
+               (* errors of the storage rise without interference: the writer's own error for a failed
+                  Write, io.ErrShortWrite for a short count with a nil error *)
+               let want = "err." ^ eclass_name (wfail_class w chunks) in
+               if st_ <> want then add_fail fails "storage_write_error_replaced"
+             end
            end else begin
              match build_link lp (hash lp.lp_mhtype full) with
              | None -> skip := true
